@@ -332,7 +332,9 @@ func checkC10(e *Env, r *Report) {
 		"mqueue/access":   func(v string) string { return "mqueue " + v + " type=posix /q," },
 		"io_uring/access": func(v string) string { return "io_uring " + v + " label=l," },
 		"mount/flags":     func(v string) string { return "mount options=(" + v + ") /a -> /b," },
-		"dbus/access":     func(v string) string { return "dbus " + v + " bus=session path=/a interface=i member=m peer=(name=n label=l)," },
+		"dbus/access": func(v string) string {
+			return "dbus " + v + " bus=session path=/a interface=i member=m peer=(name=n label=l),"
+		},
 	}
 	if req, ok := aa.VerifTables()["requirements"].(map[string]map[string][]string); ok {
 		tks := []string{}
